@@ -75,7 +75,12 @@ func lastElemRule(p *core.Program, r *core.Report, rule string, floor int, only 
 				r.OK(rule, key, pos, true, s.How)
 			case s.Param >= 0:
 				if ok, how := guardedByCallers(fn, s.Param, 0); ok {
-					r.OK(rule, key, pos, true, how)
+					// an accessor stands for one access per place that uses it
+					seenK := map[string]int{}
+					for _, c := range callers[fn] {
+						seenK[short(c.Parent())]++
+						r.OK(rule, fmt.Sprintf("%s<-%s#%d", key, short(c.Parent()), seenK[short(c.Parent())]), pos, true, how)
+					}
 				} else {
 					r.Bad(rule, key, pos, "last-element index of parameter "+s.X.Name()+" is not guarded against an empty slice here and "+how+": an empty part (empty polygon in a MultiPolygon) makes it panic with index out of range [-1]")
 				}
@@ -102,10 +107,19 @@ func chainRule(p *core.Program, r *core.Report, rule string, floor int, only fun
 		}
 		for i, c := range eng.ChainLoopsSSA(fn) {
 			key := fmt.Sprintf("%s/chain#%d", short(fn), i+1)
-			if c.OK {
-				r.OK(rule, key, p.Pos(c.Pos), true, c.Why)
-			} else {
-				r.Bad(rule, key, p.Pos(c.Pos), c.Why)
+			keys := []string{key}
+			if us := loopUsers(p, fn); len(us) > 0 {
+				keys = nil
+				for _, u := range us {
+					keys = append(keys, key+"<-"+u)
+				}
+			}
+			for _, k := range keys {
+				if c.OK {
+					r.OK(rule, k, p.Pos(c.Pos), true, c.Why)
+				} else {
+					r.Bad(rule, k, p.Pos(c.Pos), c.Why)
+				}
 			}
 		}
 	}
